@@ -378,6 +378,19 @@ impl Chitchat {
             return;
         }
 
+        if last_gc_version < node_state.last_gc_version() {
+            // The supplied state garbage collected less than our copy did. Adopting its
+            // `last_gc_version` would move our copy backward.
+            warn!(
+                node_max_version = node_state.max_version(),
+                node_last_gc_version = node_state.last_gc_version(),
+                delta_max_version = max_version,
+                delta_last_gc_version = last_gc_version,
+                "attempted to reset node with a state that garbage collected less"
+            );
+            return;
+        }
+
         let monotonic_property_before = node_state.monotonic_property();
 
         // We make sure that the node is listed in the failure detector,
@@ -402,6 +415,11 @@ impl Chitchat {
             node_state.remove_key_value_internal(&key);
         }
         node_state.set_last_gc_version(last_gc_version);
+        // The supplied state may be ahead of its most recent key-value (garbage collected
+        // tombstones).
+        if node_state.max_version() < max_version {
+            node_state.set_max_version(max_version);
+        }
 
         let monotonic_property_after = node_state.monotonic_property();
 
